@@ -4,6 +4,7 @@
 -/
 import Paho.Driver.Common
 import Paho.Model.WsWriter
+import Paho.Model.TcpWriter
 namespace Paho.Driver
 open Paho Paho.Ws Paho.WsW
 
@@ -43,5 +44,33 @@ def wswStep (s : St) : List String → St × String
   | _ => (s, "bad-op")
 
 def wswDrv : Drv := { σ := St, init := {}, step := wswStep }
+
+/-! the same line protocol over a raw TCP socket (Paho.Model.TcpWriter); `sb` is always 0 there -/
+
+def showTRes : TcpW.WRes → String
+  | .success => "success" | .again => "again" | .connLost => "connLost" | .stuck => "stuck"
+
+def tcpwStep (s : TcpW.St) : List String → TcpW.St × String
+  | ["enq", h] =>
+    match parseHex h with
+    | some b => let s' := TcpW.enqueue s b; (s', s!"q={s'.queue.length}")
+    | none => (s, "bad-op")
+  | ["enqz", n, x] =>
+    match n.toNat?, x.toNat? with
+    | some n, some x => let s' := TcpW.enqueue s (List.replicate n (b8 x)); (s', s!"q={s'.queue.length}")
+    | _, _ => (s, "bad-op")
+  | ["write", sc] =>
+    match parseOuts sc with
+    | some outs =>
+      let r := TcpW.step s (.write outs)
+      let s' := r.1
+      let rc := match r.2 with | some x => showTRes x | none => "?"
+      let pos := match s'.queue with | p :: _ => p.pos | [] => 0
+      (s', s!"rc={rc} q={s'.queue.length} pos={pos} wire={s'.wire.length} new={shortBytes (s'.wire.drop s.wire.length)}")
+    | none => (s, "bad-op")
+  | ["dump"] => (s, "WIRE=" ++ toHex s.wire)
+  | _ => (s, "bad-op")
+
+def tcpwDrv : Drv := { σ := TcpW.St, init := {}, step := tcpwStep }
 
 end Paho.Driver
